@@ -9,6 +9,7 @@ import Scale.Decode
 import Scale.Entry
 import Scale.Mel
 import Scale.Append
+import Scale.EntryEnc
 namespace Scale.Driver
 open Scale
 
@@ -272,6 +273,16 @@ def answer (line : String) : String :=
     | some (ty, r) =>
       match parseVal r with
       | some (v, []) => showResBytes (Impl.encodeTo ty v)
+      | _ => "bad-op"
+    | none => "bad-op"
+  | "enc4" :: rest =>
+    match parseTy rest with
+    | some (ty, r) =>
+      match parseVal r with
+      | some (v, []) =>
+        match Impl.encode ty v, Impl.usingEncoded ty v, Impl.encodedSize ty v with
+        | .ok a, .ok u, .ok n => showHex a ++ " " ++ showHex u ++ " " ++ toString n
+        | _, _, _ => "panic"
       | _ => "bad-op"
     | none => "bad-op"
   | "dec" :: rest =>
